@@ -26,6 +26,8 @@ def run(c):
     r6(c)
     r7(c)
     r8(c)
+    r9(c)
+    r10(c)
 
 
 def r6(c):
@@ -377,3 +379,60 @@ def r8(c):
         ok = fl is None or (isinstance(v, ast.Constant) and v.value == 0)
         c.check("C02.R8", ok, repo.loc(m, x), f"_compile_acl/{norm(x.args[0])[:40] if x.args else '?'}", f"ACL pattern compiled with flags `{norm(fl) if fl is not None else ''}`: rows differing from the rule "
                 "only in what the flag ignores are covered too", key_text="acl-flags")
+
+
+def r9(c):
+    """which rule governs a row is decided from the row and the ACL handed in, every time"""
+    from rules.c20 import hidden_state_sites, module_level_names
+    repo = c.repo
+    c.rule("C02.R9", "ACL matching keeps no memory: the functions that decide which ACL rule governs a row (apply_acl, apply_acl_diff, match_row_to_acl, _find_acl_matches, "
+                     "_select_match and the same-module helpers they call) write no module-level or class-level state — a remembered (row -> rule) answer is served to another "
+                     "device / generator set whose ACL merely looks alike at that level (same rule texts, other children, flags or vendor), and the patch then removes or keeps "
+                     "lines by someone else's ACL")
+    m = repo.module(PATCHING)
+    roots = ["apply_acl", "apply_acl_diff", "match_row_to_acl", "_find_acl_matches", "_select_match"]
+    seen, todo = {}, [q for q in roots if q in m.defs]
+    if len(todo) < 4:
+        raise AnchorError("C02.R9: ACL matching functions not found in annlib.patching")
+    while todo:
+        q = todo.pop()
+        if q in seen or not isinstance(m.defs.get(q), ast.FunctionDef):
+            continue
+        seen[q] = m.defs[q]
+        for x in calls_in(m.defs[q]):
+            r_ = repo.resolve_call(m, x)
+            if r_ and r_[0] is m and isinstance(r_[2], ast.FunctionDef) and r_[1] not in seen:
+                todo.append(r_[1])
+    c.count("functions", len(seen))
+    sites = hidden_state_sites(m.tree, list(seen.values()), module_level_names(m.tree))
+    for node, what in sites:
+        c.violated("C02.R9", repo.loc(m, node), f"patching:{what}", f"{what}: ACL decisions survive from one call to the next", key_text=what)
+    if not sites:
+        c.holds("C02.R9", m.rel, "patching/acl-matching-stateless", f"{len(seen)} functions ({', '.join(sorted(seen))[:120]}) write no module-level state")
+
+
+def r10(c):
+    repo = c.repo
+    c.rule("C02.R10", "only the operator switches the ACL off: in gen._old_new_per_device the branch that compiles the generators' combined ACL and filters old / new with it is "
+                      "taken exactly when `not ctx.args.no_acl` — no further condition (presence of partial results, emptiness of the new config). With acl_rules left at None the "
+                      "later stages behave as under --no-acl, and a device for which no selected generator produced anything gets its whole configuration removed although the "
+                      "combined ACL is empty")
+    g = repo.module("annet.gen")
+    fn = repo.func("annet.gen", "_old_new_per_device")
+    c.count("functions")
+    gm = GuardMap(fn)
+    comp = [n for n in walk_no_nested(fn) if isinstance(n, ast.Assign) and isinstance(n.value, ast.Call) and call_name(n.value).split(".")[-1] == "compile_acl_text"
+            and "acl_text" in norm(n.value) and "safe" not in norm(n.targets[0])]
+    if not comp:
+        raise AnchorError("_old_new_per_device: compilation of the combined ACL (compile_acl_text(res.acl_text(), ...)) not found")
+    st = comp[0]
+    holder = getattr(st, "_parent", None)
+    while holder is not None and not isinstance(holder, ast.If):
+        holder = getattr(holder, "_parent", None)
+    ok = isinstance(holder, ast.If)
+    shown = ""
+    if ok:
+        f = G.formula(holder.test, G.GuardEnv(rename=lambda s_: "no_acl" if s_.replace(" ", "") in ("ctx.args.no_acl", "args.no_acl") else s_))
+        shown = G.show(f)
+        ok = G.equivalent(f, G.Not(G.Atom("no_acl")))
+    c.check("C02.R10", ok, repo.loc(g, holder or st), "_old_new_per_device/acl-step-guard", f"the ACL step runs under `{shown}`; expected exactly `not ctx.args.no_acl`", key_text="acl-guard")
